@@ -189,6 +189,79 @@ pub fn lookup(name: &str) -> Option<OpFn> {
         if f.is_some() { return f; }
     }
     Some(match name {
+        // ---------------------------------------------------------------- C04
+        "o.q.algebra" => |a| {
+            let (p, q, r, k) = (a.q(), a.q(), a.q(), a.x());
+            let one = Quaternion::<X>::one();
+            let mut v = diff((p * q) * r, p * (q * r));
+            v.extend(diff(p * (q + r), p * q + p * r));
+            v.extend(diff((p + q) * r, p * r + q * r));
+            v.extend(diff(one * p, p));
+            v.extend(diff(p * one, p));
+            v.extend(diff((p * q).conjugate(), q.conjugate() * p.conjugate()));
+            v.push((p * q).magnitude2() - p.magnitude2() * q.magnitude2());
+            v.push(p.magnitude2() - p.dot(p));
+            v.extend(diff(p * k, Quaternion::from_sv(p.s * k, p.v * k)));
+            v.extend(diff(-p, Quaternion::from_sv(-p.s, -p.v)));
+            v.extend(diff(p - q, p + (-q)));
+            ok(v)
+        },
+        "o.q.invert" => |a| {
+            let q = a.q();
+            if is0(&[q.magnitude2()]) { return Out::Skip; }
+            let one = Quaternion::<X>::one();
+            let mut v = diff(q * q.invert(), one);
+            v.extend(diff(q.invert() * q, one));
+            ok(v)
+        },
+        "o.q.rotate" => |a| {
+            let (q, v) = (a.q(), a.v3());
+            let two = X::int(2);
+            // every q: the shortcut formula
+            let mut r = diff(q * v, v + q.v.cross(q.v.cross(v) + v * q.s) * two);
+            r.extend(diff(q.rotate_vector(v), q * v));
+            if is0(&[q.magnitude2() - X::int(1)]) {
+                // unit q: sandwich product, length
+                let s = q * Quaternion::from_sv(X::int(0), v) * q.conjugate();
+                r.push(s.s);
+                r.extend(diff(s.v, q * v));
+                r.push((q * v).magnitude2() - v.magnitude2());
+            }
+            ok(r)
+        },
+        "o.q.compose" => |a| {
+            let (p, q, v) = (a.q(), a.q(), a.v3());
+            if !is0(&[p.magnitude2() - X::int(1), q.magnitude2() - X::int(1)]) { return Out::Skip; }
+            ok(diff((p * q) * v, p * (q * v)))
+        },
+        // ---------------------------------------------------------------- C05
+        "o.q.same_rotation" => |a| {
+            let (p, q, v) = (a.q(), a.q(), a.v3());
+            if !is0(&[p.magnitude2() - X::int(1), q.magnitude2() - X::int(1)]) { return Out::Skip; }
+            let m3 = Matrix3::from(q);
+            let m4 = Matrix4::from(q);
+            let b3 = Basis3::from(q);
+            let mut r = diff(m3 * v, q * v);
+            r.extend(diff(b3.rotate_vector(v), q * v));
+            r.extend(diff(m4.transform_vector(v), q * v));
+            r.extend(diff(Matrix3::from(b3), m3));
+            r.extend(diff(m3.transpose() * m3, Matrix3::identity()));
+            r.push(m3.determinant() - X::int(1));
+            r.extend(diff(Matrix3::from(p * q), Matrix3::from(p) * m3));
+            r.extend(diff(Matrix4::from(p * q), Matrix4::from(p) * m4));
+            r.extend(diff(Matrix3::from(Basis3::from(p * q)), Matrix3::from(Basis3::from(p) * b3)));
+            ok(r)
+        },
+        "o.q.roundtrip" => |a| {
+            let q = a.q();
+            if !is0(&[q.magnitude2() - X::int(1)]) { return Out::Skip; }
+            let r = Quaternion::from(Matrix3::from(q));
+            let rb = Quaternion::from(Basis3::from(q));
+            let d = diff(r, q);
+            let mut out = if is0(&d) { d } else { diff(r, -q) };
+            out.extend(diff(rb, r));
+            ok(out)
+        },
         // ---------------------------------------------------------------- C01 constructors
         "o.m4.constructors" => |a| {
             let (t, p, v, s, x, y, z) = (a.v3(), a.p3(), a.v3(), a.x(), a.x(), a.x(), a.x());
@@ -280,7 +353,8 @@ impl PerpLike for Vector3<X> {
 
 pub fn names() -> Vec<String> {
     let mut v: Vec<String> = ["o.v3.lagrange", "o.v3.cross_cross", "o.v3.cross_orth", "o.v.dot_bilinear",
-        "o.m4.constructors", "o.m3.constructors", "o.m.embed", "o.p3.homogeneous"]
+        "o.m4.constructors", "o.m3.constructors", "o.m.embed", "o.p3.homogeneous",
+        "o.q.algebra", "o.q.invert", "o.q.rotate", "o.q.compose", "o.q.same_rotation", "o.q.roundtrip"]
         .iter()
         .map(|s| s.to_string())
         .collect();
